@@ -349,14 +349,27 @@ GS_EVENTS = (
     + [(o, "/" + s) for o in ("cs", "CS") for s in ("DeviceRGB", "DeviceCMYK", "DeviceGray", "CS0", "Pattern")]
 )
 GS_STRUCT = [("q",), ("cm", 1, 0, 0, 1, 16, 24), ("cm", 0, 1, -1, 0, 96, 0)]
-GS_ILL = [("w",), ("w", b"x"), ("rg", 1, 0), ("d", (3, 1)), ("K", 1, 0, b"x", 0), ("cm", 1, 0, 0, 1, 5)]
+GS_ILL = [("w",), ("w", b"x"), ("rg", 1, 0), ("d", (3, 1)), ("cm", 1, 0, 0, 1, 5)]
+# full operand count, one operand of the wrong type: neither the colour nor the colour *space* may change
+GS_ILL_COLOUR = [("g", b"x"), ("G", "/N"), ("rg", 1, 0, b"x"), ("RG", "/N", 0, 1), ("k", 0, 0, (1,), 1), ("K", 1, 0, b"x", 0)]
+
+
+def colour_ill_events(m: "GM") -> List[Tuple]:
+    ev = []
+    for op, stroking in (("sc", False), ("SCN", True)):
+        n = SPACES[m.gs["scs" if stroking else "ncs"]]
+        if n is None:
+            continue
+        ev.append((op,) + {1: (b"x",), 3: (1, "/N", 0), 4: (0, 0, b"x", 1)}[n])
+    return ev
+
 
 
 def gs_enabled(m: GM) -> List[Tuple]:
     ev = list(GS_EVENTS) + colour_events(m) + list(GS_STRUCT)
     if m.stack:
         ev.append(("Q",))
-    ev += GS_ILL
+    ev += GS_ILL + GS_ILL_COLOUR + colour_ill_events(m)
     # a colour operator with fewer operands than the current space has components
     if SPACES[m.gs["ncs"]] not in (None, 1):
         ev.append(("sc", Fr(1, 2)))
@@ -441,7 +454,7 @@ BOUNDS = {
 META = {
     "rule": (
         "family gs: breadth-first search over graphics-state operator histories ('all': w x2, d x2, g G rg RG k K, cs/CS x5 spaces incl. ICCBased N=3 and "
-        "Pattern, sc scn SC SCN with the operand count of the current space, q Q, cm x2, 8 ill-formed instances; 'core': q Q cs x3 CS x2 sc SC g RG w d cm, "
+        "Pattern, sc scn SC SCN with the operand count of the current space, q Q, cm x2, 7 ill-formed instances with missing operands, ill-typed full-count g G rg RG k K sc SCN; 'core': q Q cs x3 CS x2 sc SC g RG w d cm, "
         "one level deeper) to gs_depth; state = (canonical real "
         "interpreter state, model state), deduplicated; after every transition the probe 're B m l S' is painted and both shapes are compared in every "
         "attribute (class, pts, bbox, original_path, stroke/fill/evenodd, linewidth, dashing_style, stroking/non-stroking colour). "
